@@ -235,6 +235,7 @@ func vpHistory(t *testing.T, penc, eenc *json.Encoder, hist int, rng *rand.Rand,
 	name := map[*vlNode]string{P: "P", F: "F"}
 
 	step := 0
+	tieAddr := map[cipher.Address]bool{}
 	badSig := map[string]bool{}
 	kinds := map[string]string{}
 	emit := func(r vpRec) {
@@ -340,6 +341,21 @@ func vpHistory(t *testing.T, penc, eenc *json.Encoder, hist int, rng *rand.Rand,
 			rem -= c
 			remH -= hh
 		}
+		// a batch of identical outputs: the transactions that later spend them one by one have the same size and the same
+		// fee, so their order in a block is decided by the hash tie-break alone
+		nTies := 0
+		if hist%3 == 0 || hist == 1 {
+			nTies = 14 + rng.Intn(6)
+		}
+		last := len(txn.Out) - 1
+		for k := 0; k < nTies && txn.Out[last].Coins > 4e6; k++ {
+			p, sk, _ := cipher.GenerateDeterministicKeyPair([]byte(fmt.Sprintf("tie-%d-%d", k, rng.Int63())))
+			ta := cipher.AddressFromPubKey(p)
+			keyOf[ta] = sk
+			tieAddr[ta] = true
+			txn.Out = append(txn.Out, coin.TransactionOutput{Address: ta, Coins: 2e6, Hours: 40})
+			txn.Out[last].Coins -= 2e6
+		}
 		txn.SignInputs([]cipher.SecKey{owners[0].sec})
 		_ = txn.UpdateHeader()
 		var uxh cipher.SHA256
@@ -409,6 +425,7 @@ func vpHistory(t *testing.T, penc, eenc *json.Encoder, hist int, rng *rand.Rand,
 			coins += unit
 		}
 		rem, remH := coins, outH
+		nullAt := rng.Intn(nout)
 		for k := 0; k < nout; k++ {
 			c, hh := rem, remH
 			if k < nout-1 {
@@ -416,7 +433,7 @@ func vpHistory(t *testing.T, penc, eenc *json.Encoder, hist int, rng *rand.Rand,
 				hh = uint64(rng.Int63n(int64(remH/uint64(nout-k) + 1)))
 			}
 			dst := owners[rng.Intn(len(owners))].addr
-			if kind == "null-out" && k == 0 {
+			if kind == "null-out" && k == nullAt {
 				dst = cipher.Address{}
 			}
 			txn.Out = append(txn.Out, coin.TransactionOutput{Address: dst, Coins: c, Hours: hh})
@@ -523,6 +540,8 @@ func vpHistory(t *testing.T, penc, eenc *json.Encoder, hist int, rng *rand.Rand,
 		for _, ux := range uxs {
 			if ux.Body.Address == owners[3].addr {
 				lockedUx = append(lockedUx, ux)
+			} else if tieAddr[ux.Body.Address] {
+				continue // reserved for the tie batch
 			} else if _, ok := keyOf[ux.Body.Address]; ok {
 				free = append(free, ux)
 			}
@@ -613,6 +632,20 @@ func vpHistory(t *testing.T, penc, eenc *json.Encoder, hist int, rng *rand.Rand,
 					inject(P, txn, rng.Intn(2) == 0) // re-submission
 				}
 				lastTxns = append(lastTxns, txn)
+			}
+		}
+		if round == 0 {
+			// the tie batch: one transaction per identical output, each burning exactly half of the same hours
+			for _, ux := range uxs {
+				if tieAddr[ux.Body.Address] {
+					var txn coin.Transaction
+					_ = txn.PushInput(ux.Hash())
+					txn.Out = append(txn.Out, coin.TransactionOutput{Address: owners[rng.Intn(3)].addr, Coins: 2e6, Hours: 10})
+					txn.SignInputs([]cipher.SecKey{keyOf[ux.Body.Address]})
+					_ = txn.UpdateHeader()
+					kinds[txn.Hash().Hex()] = "tie"
+					inject(P, txn, false)
+				}
 			}
 		}
 		if rng.Intn(2) == 0 {
